@@ -1273,7 +1273,9 @@ func checkExecuteFromSlave(reqCtx *util.RequestContext, c *SessionExecutor, sql 
 }
 
 // 如果是只读用户, 且SQL是INSERT, REPLACE, UPDATE, DELETE, DDL, LOAD DATA, 则拒绝执行, 返回true
-// CALL is refused as well: the proxy cannot tell what the stored procedure does
+// CALL is refused as well: the proxy cannot tell what the stored procedure does;
+// so are PREPARE and EXECUTE sent as queries: what EXECUTE runs is whatever the
+// pooled backend connection has under that name
 func isSQLNotAllowedByUser(c *SessionExecutor, stmtType int) bool {
 	if c.GetNamespace().IsAllowWrite(c.user) {
 		return false
@@ -1281,7 +1283,7 @@ func isSQLNotAllowedByUser(c *SessionExecutor, stmtType int) bool {
 
 	return stmtType == parser.StmtDelete || stmtType == parser.StmtInsert || stmtType == parser.StmtUpdate ||
 		stmtType == parser.StmtReplace || stmtType == parser.StmtDDL || stmtType == parser.StmtLoad ||
-		stmtType == parser.StmtCallProc
+		stmtType == parser.StmtCallProc || stmtType == parser.StmtPrepare || stmtType == parser.StmtExecute
 }
 
 // 旧版本，这边有个版本对比的函数性能比较差，qps 大时损耗比较严重遂去掉，Contains 比 HasSuffix 性能差，去掉
